@@ -19,6 +19,7 @@ RULE = ("for every predicate: matrices built to have the property exactly (sizes
         "margin delta in [1e-3, 1], and images under property-preserving transformations (unitary conjugation, permutation similarity, ...); helper identities on "
         "random conformable operands; signature (predicate, class, size, field); non-trivial = negatives and transformed positives; plus tolerance-rule cases at scales "
         "1e-4..1e4 a factor 4 inside / outside the documented allclose rule with defaulted, keyword and positional tolerances")
+THOROUGH_REPEAT = 20  # the thorough tier runs its randomised case kinds this many times (new inputs each time)
 ASSUMPTIONS = [
     "tolerance-rule cases: the documented rule is numpy.allclose's |a - b| <= atol + rtol |b| with defaults rtol=1e-5, atol=1e-8; verdicts are required only a "
     "factor 4 inside / outside it (worst entry), for is_hermitian, is_symmetric, is_anti_hermitian, is_identity and the Hermiticity gate of is_positive_semidefinite",
